@@ -21,6 +21,7 @@ DESIGN.md was not built).  Full statement, for reference:
   complete r  →  ∃ honest session in which holder(sk(r.remoteCert.publicKey)) sent the message read.
 -/
 import Nebula.Lemmas.MachineTrace
+import Nebula.Lemmas.NoiseIXAuth
 
 namespace Nebula.Props.C05
 open Nebula.Wire Nebula.Machine Nebula.Spec.Handshake
@@ -122,5 +123,73 @@ example :
     (processPacket c { myVersion := 2 } 100 0 (.ok msg false false [7, 7]) ⟨some ([7, 7], 2), none⟩ 11
       (.ok true true)).2 = .err .verify := by
   decide
+
+/-! ### SYMBOLIC Noise IX (`Spec/NoiseIX`): what "the peer proved it holds the key" rests on.
+
+Everything below is about the symbolic (Dolev-Yao, free-constructor) model of the IX token sequence,
+not about bytes: computational soundness of X25519 / P-256 / AEAD / SHA-256 / HKDF for this abstraction
+and the faithfulness of flynn/noise to the token sequence remain ASSUMPTIONS.  The link to the Machine
+theorems above: `PeerStatic()` of a successful read of message 2 is the `pub rs` of `InitiatorAccepts`;
+of message 1, the `pub y` a responder session received. -/
+
+open Nebula.Spec.NoiseIX in
+/-- INITIATOR side (explicit authentication, injective agreement).  Against an adversary who owns the
+network (drop, duplicate, reorder, truncate, splice, replay, cross-session, build any term from what he
+knows), for any set of honest sessions: if an honest initiator whose ephemeral is secret accepts a
+message 2 — so that its `PeerStatic()` is `pub rs` — then either the private key `rs` is in the
+adversary's hands, or an honest responder holding `rs` produced exactly this message 2 in a session in
+which it had read exactly this initiator's message 1 (same ephemeral, static key and payload). -/
+theorem ix_auth_symbolic (W : World) (hp : W.payloadsPublic) (i : InitSession) (he : W.Secret i.e)
+    (m : Term) (rs : Nat) (p2 : Term) (hk : Knows W m) (ha : InitiatorAccepts i m rs p2) :
+    ¬ W.Secret rs ∨
+    ∃ r, W.resps r ∧ r.s = rs ∧ r.x = i.e ∧ r.y = i.s ∧ r.p1 = i.p1 ∧ r.p2 = p2 ∧
+      m = msg2 r.x r.y r.p1 r.e r.s r.p2 :=
+  initiator_auth W hp i he m rs p2 hk ha
+
+open Nebula.Spec.NoiseIX in
+/-- RESPONDER side.  IX gives the responder no explicit authentication at the moment it completes
+(it completes on message 1, which anybody can build: `responder_completion_is_not_explicit_auth`).
+What it has is implicit: the session keys it derives for a peer static key `pub is` cannot be known
+to anybody unless the private key `is` is in the adversary's hands — so only the certificate's owner
+can ever use the tunnel. Likewise for the initiator's keys and the responder static key it accepted. -/
+theorem ix_key_secrecy_symbolic (W : World) (hp : W.payloadsPublic) (ie is re rs : Nat) :
+    (W.Secret re → W.Secret is → ¬ Knows W (ck3 ie is re rs)) ∧
+    (W.Secret ie → W.Secret rs → ¬ Knows W (ck3 ie is re rs)) :=
+  ⟨responder_key_secrecy W hp ie is re rs, initiator_key_secrecy W hp ie is re rs⟩
+
+open Nebula.Spec.NoiseIX in
+/-- The invariant both rest on: whatever the adversary can ever know "may be public"; in particular
+secret private keys stay secret. -/
+theorem ix_secrets_stay_secret (W : World) (hp : W.payloadsPublic) (n : Nat) (hs : W.Secret n) :
+    ¬ Knows W (Term.name n) :=
+  secret_not_known W hp n hs
+
+open Nebula.Spec.NoiseIX in
+/-- Not a property of IX: explicit authentication of the initiator when the responder completes. The
+adversary knows a well-formed message 1 naming anybody's static public key, with no honest session. -/
+theorem ix_responder_not_explicitly_authenticated (W : World) (a x : Nat) (p : Term) (hpk : Knows W p) :
+    Knows W (msg1 x a p) :=
+  responder_completion_is_not_explicit_auth W a x p hpk
+
+-- non-vacuity of the symbolic theorems: a world with one honest initiator (static 1, ephemeral 2) and
+-- one honest responder (static 3, ephemeral 4) that answered it; everything else belongs to the adversary
+namespace IXExample
+open Nebula.Spec.NoiseIX
+
+def W0 : World where
+  Secret n := n = 1 ∨ n = 2 ∨ n = 3 ∨ n = 4
+  inits i := i.s = 1 ∧ i.e = 2 ∧ i.p1 = Term.const 7
+  resps r := r.s = 3 ∧ r.e = 4 ∧ r.x = 2 ∧ r.y = 1 ∧ r.p1 = Term.const 7 ∧ r.p2 = Term.const 8
+
+end IXExample
+
+example : IXExample.W0.payloadsPublic :=
+  ⟨fun i h => by rw [h.2.2]; trivial, fun r h => by rw [h.2.2.2.2.2]; trivial⟩
+
+example : Spec.NoiseIX.Knows IXExample.W0 (Spec.NoiseIX.msg2 2 1 (.const 7) 4 3 (.const 8)) :=
+  Spec.NoiseIX.Knows.resp ⟨3, 4, 2, 1, .const 7, .const 8⟩ ⟨rfl, rfl, rfl, rfl, rfl, rfl⟩
+
+example : Spec.NoiseIX.InitiatorAccepts ⟨1, 2, .const 7⟩ (Spec.NoiseIX.msg2 2 1 (.const 7) 4 3 (.const 8)) 3 (.const 8) :=
+  ⟨4, _, _, rfl, rfl, rfl⟩
 
 end Nebula.Props.C05
